@@ -6,7 +6,7 @@
     than the column count", "validate the declared column length before allocating".
     Readers over io.Reader give [Err] on short input; Go slice expressions give [Panic]
     when out of range.  No proofs here. *)
-From Acra Require Import Lib.Bytes Lib.Outcome Gen.WireConsts.
+From Acra Require Import Lib.Bytes Lib.Outcome Lib.GoSlice Gen.WireConsts.
 Local Open Scope N_scope.
 
 Definition E_IO : N := 30.          (* io.EOF / io.ErrUnexpectedEOF *)
@@ -158,59 +158,100 @@ Definition replace_query (p : packet) (q : bytes) : packet :=
   then mk_packet (p_type p) (packet_length_buf (N.of_nat (length q) + 1)) (q ++ [x00])
   else p.
 
-(** ---------- Bind ---------- *)
+(** ---------- Bind / Parse / Execute / Query text: CHECKED models ----------
+    decryptor/postgresql/utils.go.  Every Go slice / index expression goes through
+    [Lib/GoSlice.v] ([gslice], [gslice_to], [gslice_from], [gindex], [gmake]: [Panic] when
+    out of range), positions and lengths are Go [int]s ([Z]) and every integer conversion the
+    code performs is written out, AS THE CODE DOES NOW:
+      [int(binary.BigEndian.Uint16(..))], [int(binary.BigEndian.Uint32(..))] = zero extension
+      ([int_of_u16], [int_of_u32]); the NULL parameter marker is the literal 0xFFFFFFFF compared
+      with that zero-extended [int].
+    [int_of_i32] (sign extension, what [int(int32(..))] would be) is defined only to state what
+    the other reading does ([Proofs/PgWire.v: bind_signed_length_refuted]). *)
 Record bind := mk_bind { b_portal : bytes; b_stmt : bytes; b_pfmts : list N;
                          b_params : list (option bytes); b_rfmts : list N }.
 
-(** readString *)
-Definition read_cstring (data : bytes) : res (bytes * bytes) :=
-  match index_of [x00] data with
-  | None => Err E_TERMINATOR
-  | Some e => do v <- slice data 0 e; do r <- slice data (S e) (length data); Ok (v, r)
-  end.
+(** binary.BigEndian.Uint16 / Uint32: bounds-check hint [_ = b[1]] / [_ = b[3]] first *)
+Definition be_u16 (b : bytes) : res N := do _ <- gindex 1 b; Ok (be_dec (firstn 2 b)).
+Definition be_u32 (b : bytes) : res N := do _ <- gindex 3 b; Ok (be_dec (firstn 4 b)).
+(** int(uint16), int(uint32) on a 64-bit platform: zero extension *)
+Definition int_of_u16 (x : N) : Z := Z.of_N x.
+Definition int_of_u32 (x : N) : Z := Z.of_N x.
+(** int(int32(uint32)): sign extension (NOT what the code does) *)
+Definition int_of_i32 (x : N) : Z := if x <? 2147483648 then Z.of_N x else (Z.of_N x - 4294967296)%Z.
 
+(** [make([]T, n)] for its run-time check only: the condition of [gmake] of Lib/GoSlice.v without building
+    the number of bytes as a [nat], which the model never uses ([Proofs/PgWire.v: gmake_chk_gmake]) *)
+Definition gmake_chk (n : Z) : res unit := if ((0 <=? n) && (n <=? MAXALLOC))%Z then Ok tt else Panic.
+
+(** bytes.Index(data, terminator): -1 when absent *)
+Definition index_nul (data : bytes) : Z :=
+  match index_of [x00] data with None => (-1)%Z | Some e => Z.of_nat e end.
+
+(** readString: data[:end], data[end+1:] *)
+Definition read_cstring (data : bytes) : res (bytes * bytes) :=
+  let e := index_nul data in
+  if (e =? -1)%Z then Err E_TERMINATOR else
+  do v <- gslice_to e data; do r <- gslice_from (e + 1)%Z data; Ok (v, r).
+
+(** the loop of readUint16Array: items[i] = Uint16(remaining[:2]); remaining = remaining[2:] *)
 Fixpoint read_u16_items (k : nat) (r : bytes) : res (list N * bytes) :=
   match k with
   | O => Ok ([], r)
-  | S k' => do v <- slice r 0 2; do r1 <- slice r 2 (length r);
-            do (vs, r') <- read_u16_items k' r1; Ok (be_dec v :: vs, r')
+  | S k' => do h <- gslice_to 2 r; do v <- be_u16 h; do r1 <- gslice_from 2 r;
+            do (vs, r') <- read_u16_items k' r1; Ok (v :: vs, r')
   end.
 
 (** readUint16Array *)
 Definition read_u16_array (data : bytes) : res (list N * bytes) :=
-  if (length data <? 2)%nat then Err E_TRUNCATED else
-  do cb <- slice data 0 2; do r <- slice data 2 (length data);
-  let count := be_dec cb in
-  if N.of_nat (length r) <? 2 * count then Err E_TRUNCATED else
-  read_u16_items (N.to_nat count) r.
+  if (len data <? 2)%Z then Err E_TRUNCATED else
+  do h <- gslice_to 2 data; do c <- be_u16 h;
+  let count := int_of_u16 c in
+  do r <- gslice_from 2 data;
+  if (len r <? 2 * count)%Z then Err E_TRUNCATED else
+  do _ <- gmake_chk (2 * count)%Z;                       (* make([]uint16, itemCount) *)
+  read_u16_items (Z.to_nat count) r.
 
-Fixpoint read_params (k : nat) (r : bytes) : res (list (option bytes) * bytes) :=
+(** the loop of readParameterArray, parametrised by the integer conversion applied to the
+    declared length and by the value compared with it for NULL *)
+Fixpoint read_params_with (conv : N -> Z) (null : Z) (k : nat) (r : bytes) : res (list (option bytes) * bytes) :=
   match k with
   | O => Ok ([], r)
   | S k' =>
-      if (length r <? 4)%nat then Err E_TRUNCATED else
-      do lb <- slice r 0 4; do r1 <- slice r 4 (length r);
-      let len := be_dec lb in
-      if len =? 0xFFFFFFFF then do (vs, r') <- read_params k' r1; Ok (None :: vs, r')
-      else if N.of_nat (length r1) <? len then Err E_TRUNCATED
-      else do v <- slice r1 0 (N.to_nat len); do r2 <- slice r1 (N.to_nat len) (length r1);
-           do (vs, r') <- read_params k' r2; Ok (Some v :: vs, r')
+      if (len r <? 4)%Z then Err E_TRUNCATED else
+      do h <- gslice_to 4 r; do n <- be_u32 h;
+      let plen := conv n in
+      do r1 <- gslice_from 4 r;
+      if (plen =? null)%Z then do (vs, r') <- read_params_with conv null k' r1; Ok (None :: vs, r')
+      else if (len r1 <? plen)%Z then Err E_TRUNCATED
+      else do v <- gslice_to plen r1; do r2 <- gslice_from plen r1;
+           do (vs, r') <- read_params_with conv null k' r2; Ok (Some v :: vs, r')
   end.
 
 (** readParameterArray *)
-Definition read_param_array (data : bytes) : res (list (option bytes) * bytes) :=
-  if (length data <? 2)%nat then Err E_TRUNCATED else
-  do cb <- slice data 0 2; do r <- slice data 2 (length data);
-  read_params (N.to_nat (be_dec cb)) r.
+Definition read_param_array_with (conv : N -> Z) (null : Z) (data : bytes) : res (list (option bytes) * bytes) :=
+  if (len data <? 2)%Z then Err E_TRUNCATED else
+  do h <- gslice_to 2 data; do c <- be_u16 h;
+  let count := int_of_u16 c in
+  do r <- gslice_from 2 data;
+  do _ <- gmake_chk (24 * count)%Z;                      (* make([][]byte, parameterCount) *)
+  read_params_with conv null (Z.to_nat count) r.
 
 (** NewBindPacket *)
-Definition new_bind_packet (data : bytes) : res bind :=
+Definition new_bind_packet_with (conv : N -> Z) (null : Z) (data : bytes) : res bind :=
   do (portal, d1) <- read_cstring data;
   do (stmt, d2) <- read_cstring d1;
   do (pf, d3) <- read_u16_array d2;
-  do (pv, d4) <- read_param_array d3;
+  do (pv, d4) <- read_param_array_with conv null d3;
   do (rf, _) <- read_u16_array d4;
   Ok (mk_bind portal stmt pf pv rf).
+
+(** the code as it is: [parameterLen := int(binary.BigEndian.Uint32(..))], [parameterLen == 0xFFFFFFFF] *)
+Definition read_params := read_params_with int_of_u32 4294967295%Z.
+Definition read_param_array := read_param_array_with int_of_u32 4294967295%Z.
+Definition new_bind_packet := new_bind_packet_with int_of_u32 4294967295%Z.
+(** the other reading: [int(int32(..))] compared with -1 *)
+Definition new_bind_packet_signed := new_bind_packet_with int_of_i32 (-1)%Z.
 
 Definition write_u16_array (vs : list N) : res bytes :=
   if 65535 <? N.of_nat (length vs) then Err E_TOO_BIG
@@ -243,3 +284,62 @@ Fixpoint set_params (vs : list (option bytes)) (l : list (option bytes)) : list 
   | _, [] => vs
   | [], _ => []
   end.
+
+(** ---------- Parse ---------- *)
+Record parse := mk_parse { pp_name : bytes; pp_query : bytes; pp_num : bytes; pp_params : list bytes }.
+
+(** the OID loop of NewParsePacket: [len(data) < endIndex+4] then data[endIndex:endIndex+4] *)
+Fixpoint read_oids (k : nat) (e : Z) (data : bytes) : res (list bytes) :=
+  match k with
+  | O => Ok []
+  | S k' => if (len data <? e + 4)%Z then Err E_TRUNCATED else
+            do p <- gslice e (e + 4)%Z data; do ps <- read_oids k' (e + 4)%Z data; Ok (p :: ps)
+  end.
+
+(** NewParsePacket (name and query keep their terminators) *)
+Definition new_parse_packet (data : bytes) : res parse :=
+  let s0 := index_nul data in
+  if (s0 =? -1)%Z then Err E_TERMINATOR else
+  let s := (s0 + 1)%Z in
+  do name <- gslice_to s data;
+  do tail <- gslice_from s data;
+  let e0 := index_nul tail in
+  if (e0 =? -1)%Z then Err E_TERMINATOR else
+  let e := (e0 + (s + 1))%Z in
+  do query <- gslice s e data;
+  if (len data <? e + 2)%Z then Err E_TRUNCATED else
+  do num <- gslice e (e + 2)%Z data;
+  let e2 := (e + 2)%Z in
+  do params <- (if (e2 <? len data)%Z
+                then do n <- be_u16 num; read_oids (Z.to_nat (int_of_u16 n)) e2 data
+                else Ok []);
+  Ok (mk_parse name query num params).
+
+(** ParsePacket.Marshal; Name() / QueryString() = field[:len-1] *)
+Definition marshal_parse (pp : parse) : bytes := pp_name pp ++ pp_query pp ++ pp_num pp ++ concat (pp_params pp).
+Definition parse_name (pp : parse) : res bytes := gslice_to (len (pp_name pp) - 1)%Z (pp_name pp).
+Definition parse_query_string (pp : parse) : res bytes := gslice_to (len (pp_query pp) - 1)%Z (pp_query pp).
+
+(** ReplaceQuery on a Parse packet: a payload that does not parse is left as it is *)
+Definition replace_parse_query (p : packet) (q : bytes) : res packet :=
+  match new_parse_packet (p_desc p) with
+  | Ok pp => let m := marshal_parse (mk_parse (pp_name pp) (q ++ [x00]) (pp_num pp) (pp_params pp)) in
+             Ok (mk_packet (p_type p) (packet_length_buf (N.of_nat (length m))) m)
+  | Err _ => Ok p
+  | Panic => Panic
+  end.
+
+(** ---------- Execute ---------- *)
+(** NewExecutePacket: portal, then [len(data) < 4], then Uint32(data) *)
+Definition new_execute_packet (data : bytes) : res (bytes * N) :=
+  do (portal, d) <- read_cstring data;
+  if (len d <? 4)%Z then Err E_TRUNCATED else
+  do n <- be_u32 d; Ok (portal, n).
+
+(** ---------- GetSimpleQuery ---------- *)
+(** AFTER the fix "a Query message carries at least its terminator": [dataLength < 1] is rejected, then
+    descriptionBuf.Bytes()[:dataLength-1]; dataLength = len(payload) after a successful read *)
+Definition get_simple_query (p : packet) : res bytes :=
+  if (len (p_desc p) <? 1)%Z then Err E_TRUNCATED else gslice_to (len (p_desc p) - 1)%Z (p_desc p).
+(** the code as found *)
+Definition get_simple_query_old (p : packet) : res bytes := gslice_to (len (p_desc p) - 1)%Z (p_desc p).
